@@ -147,6 +147,23 @@ CONTRACTS = [
                  "frontier": "all(implies(n in visited and k in E(hg) and sel(hg, k, order, size, False) and n in k and m in k, m in visited or any(count(queue, pair(m, d)) >= 1 for d in Int)) "
                              "for n in Node for k in Tuple for m in Node)"}},
              note="breadth-first search returns the reachability class of its start node under the filtered hyperedges"),
+    # the depth-first twin (a list used as a stack; which element pop() takes is not modelled and does not matter): the same invariant
+    Contract("_dfs", "hypergraphx/utils/visits.py", ["_dfs"], properties=["C08"],
+             params={"hg": "Obj[Hypergraph]", "start": "Node", "max_depth": "None", "order": "Opt[Int]", "size": "Opt[Int]"},
+             fixed={"max_depth": None}, result="Set[Int]", pure=True, options={"int_pairs"},
+             locals={"visited": "Set[Int]", "stack": "Bag[Pair[Int,Int]]", "neighbors": "Set[Int]"},
+             requires={"wf": "wf(hg)", "one_filter": "order is None or size is None"},
+             raises={"ValueError": "start not in V(hg)"},
+             ensures={"class": "result == COMP(hg, start, order, size)"},
+             invariants={0: {
+                 "vis_sound": "all(n in COMP(hg, start, order, size) for n in visited)",
+                 "q_sound": "all(fst(q) in COMP(hg, start, order, size) for q in stack)",
+                 "nodes": "all(n in V(hg) for n in visited) and all(fst(q) in V(hg) for q in stack)",
+                 "start": "start in visited or any(count(stack, pair(start, d)) >= 1 for d in Int)",
+                 "closed": "implies(len(stack) == 0, CLOSED(hg, order, size, visited))",
+                 "frontier": "all(implies(n in visited and k in E(hg) and sel(hg, k, order, size, False) and n in k and m in k, m in visited or any(count(stack, pair(m, d)) >= 1 for d in Int)) "
+                             "for n in Node for k in Tuple for m in Node)"}},
+             note="depth-first search returns the reachability class of its start node under the filtered hyperedges"),
     F("connected_components", params={**HG, **OS}, result="Bag[Set[Int]]", pure=True,
       locals={"visited": "Bag[Int]", "components": "Bag[Set[Int]]"},
       requires={"wf": "wf(hg)"}, raises={"ValueError": BOTH}, ensures=CC_ENS("hg"),
